@@ -239,3 +239,4 @@ def _r18_4(res, P, cfgname):
 
 LEVEL = LEVEL + " Also (R18.2) ErrorBounds::error_bounds of every mode returns the interval (with open / closed ends) of values that round back to the float, tabulated against the mode's definition; (R04.1, shared) the interval end points handed to the Farey walk are reduced."
 TECHNIQUE = 'finite-domain tabulation of is_simpler_than and of the six ErrorBounds bodies against definition oracles; call-shape rule for the interval end points'
+LEVEL = LEVEL + ' Also (R18.3) simplest_in returns 0 early only when is_zero() of both end points is decided; (R18.4) the rounding-interval end points use no estimate.'
